@@ -8,6 +8,7 @@ package main
 // faults (down, erroring, slow) and a device the plan can make approve or deny.
 
 import (
+	"crypto/x509"
 	"net/url"
 	"bytes"
 	"encoding/json"
@@ -34,6 +35,7 @@ type simOkta struct {
 	States map[string]*simOktaState // by state token
 	Used   map[string]bool          // accepted one-time codes
 	Calls  int
+	StsMode string
 }
 
 func newSimOkta(w *vfWorld) *simOkta {
@@ -56,6 +58,9 @@ func (o *simOkta) RoundTrip(req *http.Request) (*http.Response, error) {
 	w := o.w
 	if req.URL.Host == "idp.sim" && w.idp != nil {
 		return w.idp.roundTrip(req)
+	}
+	if strings.HasPrefix(req.URL.Host, "sts.") && strings.HasSuffix(req.URL.Host, ".amazonaws.com") {
+		return o.stsRoundTrip(req)
 	}
 	if !strings.HasSuffix(req.URL.Host, ".okta.com") {
 		return nil, errors.New("sim: no route to host " + req.URL.Host)
@@ -391,4 +396,132 @@ func init() {
 		}
 		return p
 	}
+}
+
+// ---- AWS STS: validation of presigned GetCallerIdentity URLs (cloud-role certificates) ---------------------------
+// A presigned URL is "signed" here by carrying X-Amz-Signature=sig-<credential>; the credential names the role session.
+
+var vfAwsRoles = map[string]string{ // credential -> ARN the service reports
+	"AKIAROLE1": "arn:aws:sts::123456789012:assumed-role/build-runner/i-0123456789abcdef0",
+	"AKIAROLE2": "arn:aws:sts::123456789012:assumed-role/deployer/session-7",
+	"AKIAOTHER": "arn:aws:sts::999999999999:assumed-role/build-runner/i-0fedcba9876543210", // an account that is not allowed
+	"AKIAUSER1": "arn:aws:iam::123456789012:user/somebody",                                 // not a role
+}
+
+func vfAwsPresignedURL(cred string, goodSig bool) string {
+	sig := "sig-" + cred
+	if !goodSig {
+		sig = "sig-forged"
+	}
+	return "https://sts.us-east-1.amazonaws.com/?Action=GetCallerIdentity&Version=2011-06-15&X-Amz-Algorithm=AWS4-HMAC-SHA256&X-Amz-Credential=" +
+		cred + "%2F20000101%2Fus-east-1%2Fsts%2Faws4_request&X-Amz-Expires=900&X-Amz-Signature=" + sig
+}
+
+func (o *simOkta) stsRoundTrip(req *http.Request) (*http.Response, error) {
+	w := o.w
+	w.sched.park("sts:GetCallerIdentity")
+	if o.StsMode == "down" {
+		w.fault("sts.down")
+		time.Sleep(3 * time.Second)
+		return nil, errors.New("sim: dial tcp: i/o timeout")
+	}
+	q := req.URL.Query()
+	cred, _, _ := strings.Cut(q.Get("X-Amz-Credential"), "/")
+	arnStr, ok := vfAwsRoles[cred]
+	if !ok || q.Get("X-Amz-Signature") != "sig-"+cred {
+		return o.replyRaw(req, 403, "text/xml", "<ErrorResponse><Error><Code>SignatureDoesNotMatch</Code></Error></ErrorResponse>"), nil
+	}
+	w.probe("sts-identity-confirmed")
+	acct := strings.Split(arnStr, ":")[4]
+	return o.replyRaw(req, 200, "text/xml", "<GetCallerIdentityResponse xmlns=\"https://sts.amazonaws.com/doc/2011-06-15/\"><GetCallerIdentityResult><Arn>"+arnStr+
+		"</Arn><UserId>AROAEXAMPLE:session</UserId><Account>"+acct+"</Account></GetCallerIdentityResult></GetCallerIdentityResponse>"), nil
+}
+
+func (o *simOkta) replyRaw(req *http.Request, code int, ctype, body string) *http.Response {
+	return &http.Response{StatusCode: code, Status: fmt.Sprintf("%d %s", code, http.StatusText(code)), Proto: "HTTP/1.1", ProtoMajor: 1, ProtoMinor: 1,
+		Header: http.Header{"Content-Type": {ctype}}, Body: io.NopCloser(strings.NewReader(body)), Request: req, ContentLength: int64(len(body))}
+}
+
+func init() {
+	// a cloud workload asks for its role certificate.  A: credential (AKIAROLE1|AKIAROLE2|AKIAOTHER|AKIAUSER1|unknown); B: key; C: "" | forged (bad signature) | claim:<arn> (claims another ARN)
+	vfExtraOps["awsrole"] = func(w *vfWorld, st vfStep, p *vfPrepared) *vfPrepared {
+		cred := st.A
+		if cred == "" {
+			cred = "AKIAROLE1"
+		}
+		keyName := st.B
+		if keyName == "" {
+			keyName = "user_p256_1"
+		}
+		claimed := ""
+		if a, ok := vfAwsRoles[cred]; ok {
+			// arn:aws:sts::ACCT:assumed-role/NAME/SESSION -> arn:aws:iam::ACCT:role/NAME
+			parts := strings.Split(a, ":")
+			res := strings.Split(parts[5], "/")
+			if res[0] == "assumed-role" && len(res) >= 2 {
+				claimed = "arn:aws:iam::" + parts[4] + ":role/" + res[1]
+			} else {
+				claimed = a
+			}
+		} else {
+			claimed = "arn:aws:iam::123456789012:role/build-runner"
+		}
+		if strings.HasPrefix(st.C, "claim:") {
+			claimed = st.C[6:]
+		}
+		r := &vfReq{Method: "POST", Path: "/aws/requestRoleCertificate/v1", Cookies: map[string]string{}, NoTLS: false,
+			Header: map[string]string{"Claimed-Arn": claimed, "Presigned-Method": "GET", "Presigned-Url": vfAwsPresignedURL(cred, st.C != "forged"), "Content-Type": "application/x-pem-file"},
+			Raw:    []byte(vfKey(keyName).pkixPEM())}
+		if st.N == 1 {
+			r.Method = "GET"
+		}
+		p.call = w.prepare(r)
+		p.intent.Op = "awsrole"
+		_, known := vfAwsRoles[cred]
+		p.intent.Aws = &vfAwsReq{Cred: cred, Claimed: claimed, KeyName: keyName,
+			Rightful: known && st.C == "" && strings.Contains(vfAwsRoles[cred], ":123456789012:") && strings.Contains(vfAwsRoles[cred], "assumed-role/") && r.Method == "POST"}
+		return p
+	}
+}
+
+type vfAwsReq struct {
+	Cred, Claimed, KeyName string
+	Rightful               bool
+}
+
+// observeAws judges the cloud-role endpoint: who may get a certificate (C06/C01 direction: nobody without a confirmed
+// identity of an allowed account), what it names and certifies (C02 direction), how long it lives (C03: 24 hours).
+func (m *vfModel) observeAws(ctx *vfReqCtx, in *vfIntent, resp *vfResp) {
+	w := m.w
+	ar := in.Aws
+	iss := vfParseIssued(resp.Body)
+	issued := resp.Code == 200 && iss != nil && iss.X509 != nil
+	if !issued {
+		strongKey := ar.KeyName == "user_p256_1" || ar.KeyName == "user_rsa2048_1" // weak keys are rightly refused (C10's matter)
+		if ar.Rightful && strongKey && w.cleanWindow() && w.okta.StsMode != "down" {
+			w.violate("C03", "cloud-role-refused", fmt.Sprintf("cloud-role-refused:%d", resp.Code), fmt.Sprintf("a workload with a confirmed role identity of an allowed account was answered %d", resp.Code))
+		}
+		return
+	}
+	w.probe("cloud-role-cert-issued")
+	if !ar.Rightful {
+		w.violate("C06", "effect-without-credential", "effect-without-credential:signed:/aws/requestRoleCertificate/v1:"+ar.Cred,
+			fmt.Sprintf("a cloud-role certificate was issued to credential %s claiming %s (method %s)", ar.Cred, ar.Claimed, ctx.req.Method))
+	}
+	c := iss.X509
+	life := c.NotAfter.Sub(time.Now())
+	if life > 24*time.Hour+2*time.Second || c.NotAfter.Sub(c.NotBefore) > 24*time.Hour+10*time.Minute {
+		w.violate("C03", "too-long", "too-long:cloud-role", fmt.Sprintf("cloud-role certificate valid until %v: %v from now", c.NotAfter.Unix(), life))
+	}
+	if c.NotBefore.After(time.Now().Add(time.Second)) {
+		w.violate("C03", "starts-in-future", "starts-in-future:cloud-role", "cloud-role certificate validity starts in the future")
+	}
+	got, _ := x509.MarshalPKIXPublicKey(c.PublicKey)
+	if !bytes.Equal(got, vfKey(ar.KeyName).pkixDER()) {
+		w.violate("C02", "wrong-key", "wrong-key:cloud-role", "cloud-role certificate certifies another key than the one submitted")
+	}
+	if c.IsCA {
+		w.violate("C02", "ca-flag", "ca-flag:cloud-role", "cloud-role certificate is a CA")
+	}
+	m.verifyX509(c, "C02")
 }
